@@ -41,10 +41,28 @@ def quiet():
     return contextlib.redirect_stdout(io.StringIO())
 
 
+KEY_FORM = ["signer"]     # key-argument form of the current history: signer / signing_key (deprecated dictionary) / both
+_LEGACY = {}
+
+
+def legacy_key(k):
+    """The deprecated key dictionary (with private part) for an rsa key of the pool."""
+    if k.keyid not in _LEGACY:
+        from securesystemslib import interface
+        idx = W.pool().index(k)
+        path = os.path.join(W.HERE, "keydata", sorted(os.listdir(os.path.join(W.HERE, "keydata")))[idx])
+        _LEGACY[k.keyid] = interface.import_privatekey_from_file(path, key_type="rsa")
+    return _LEGACY[k.keyid]
+
+
 def key_kw(k):
-    """The key argument form for a functionary: a Signer object, or for gpg keys the key id and gpg home."""
+    """The key argument form for a functionary: a Signer object; for gpg keys the key id and gpg home; the deprecated key
+    dictionary; or a Signer together with ANOTHER key's dictionary (the documented order of precedence: the Signer is used)."""
     if k.kind == "gpg":
         return {"gpg_keyid": k.gpg_id, "gpg_home": k.gpg_home}
+    if KEY_FORM[0] == "both":
+        other = [x for x in W.pool() if x.kind == "rsa" and x is not k][0]
+        return {"signer": k.signer, "signing_key": legacy_key(other)}
     return {"signer": k.signer}
 
 
@@ -178,7 +196,8 @@ def one_history(rng, res):
                 "environment": {"workdir": "/w", "variables": ["CI=1"]}}
         for key in rng.sample(sorted(full), rng.randrange(1, 4)):
             STOP_KW[key] = full[key]
-    desc = {"key": k.kind, "dsse": dsse, "products": nprod, "stop_arguments": sorted(STOP_KW)}
+    KEY_FORM[0] = rng.choice(["signer", "signer", "both"])
+    desc = {"key": k.kind, "dsse": dsse, "products": nprod, "stop_arguments": sorted(STOP_KW), "key_arguments": KEY_FORM[0]}
     try:
         os.chdir(root)
         prods = setup(root, nprod)
@@ -309,6 +328,7 @@ def one_history(rng, res):
 
 
 def tampered_prelim(rng, res):
+    KEY_FORM[0] = "signer"
     """(iii) stop must fail and write nothing unless the preliminary record exists,
     is unaltered and was signed by the same key."""
     STOP_KW.clear()
@@ -397,6 +417,7 @@ def tampered_prelim(rng, res):
 
 
 def interleaved(rng, res):
+    KEY_FORM[0] = "signer"
     """start / stop / run for two step names and two keys in one directory."""
     STOP_KW.clear()
     import in_toto.runlib as rl
@@ -445,6 +466,7 @@ def interleaved(rng, res):
 
 
 def interleaved_random(rng, res):
+    KEY_FORM[0] = "signer"
     """Random interleavings (4-10 calls) of record start / stop / run over two step names and two keys in one
     directory, the recorded file changing between calls: every call's outcome and the final state of the two
     files of every (name, key) pair are compared with the Lean `runDirOps`; the oracle replays, per pair, only
